@@ -133,11 +133,11 @@ structure DState where
   vs : VirtualService := {}
   vh : VHDriver := {}
   mesh : Mesh := {}
-  policy : OutboundPolicy := .allowAny
-  aliasHosts : List String := []
+  cluster : String := ""        -- cluster id of the proxy of the last `rds`
   gws : List Gateway := []      -- creation order; servers are added to the last one
   gvss : List GwVS := []
   gsvcNs : List (String × Service) := []     -- gateway stream: registry services with their namespace
+  gwSels : List (String × List (String × String)) := []   -- Gateway resource (ns/name) -> selector labels
   gwRoute : String := ""
   gwBuilt : Bool := false
 
@@ -170,13 +170,51 @@ def decReq (f : List String) : Option (Request × Regex) :=
           tableRe [])
   | _ => none
 
-/-- The gateway-bound VirtualServices, each with its own view of the registry: services of the VirtualService's
-    namespace come first (so a hostname registered in two namespaces resolves to the VirtualService's own). -/
-def gwViews (d : DState) : List GwVS :=
-  if d.gsvcNs.isEmpty then d.gvss else
-  d.gvss.map fun v =>
+/-- Export class of a gateway-bound VirtualService for a router of namespace `pns` (`VirtualServicesForGateway`):
+    0 exported to its own namespace only (the router's), 1 exported to the router's namespace by name, 2 public,
+    3 not visible to the router at all. -/
+def gwExportClass (pns : String) (v : GwVS) : Nat :=
+  if v.exportTo.isEmpty || v.exportTo.contains "*" then 2
+  else if v.vs.ns == pns && (v.exportTo.contains "." || v.exportTo.contains v.vs.ns) then 0
+  else if v.exportTo.contains pns then 1
+  else 3
+
+/-- The gateway-bound VirtualServices a router of namespace `pns` sees, by export class (CODE-DERIVED order, creation
+    order inside a class), each with its own view of the registry: services of the VirtualService's namespace come
+    first (so a hostname registered in two namespaces resolves to the VirtualService's own). -/
+def gwViews (d : DState) (pns : String) : List GwVS :=
+  let vis := d.gvss.filter (fun v => gwExportClass pns v == 0) ++ d.gvss.filter (fun v => gwExportClass pns v == 1)
+    ++ d.gvss.filter (fun v => gwExportClass pns v == 2)
+  if d.gsvcNs.isEmpty then vis else
+  vis.map fun v =>
     { v with services := some (((d.gsvcNs.filter (fun e => e.1 == v.vs.ns)).map (·.2))
                                 ++ ((d.gsvcNs.filter (fun e => e.1 != v.vs.ns)).map (·.2))) }
+
+def splitStr (c : Char) (s : String) : List String := (splitChar c s.toList).map String.ofList
+
+/-- Policy token of the `sidecar` / `meshpolicy` ops: `allow` = unset. -/
+def decPolicy (p : String) : Option OutboundPolicy :=
+  if p == "registry" then some .registryOnly
+  else if p == "dynamic" then some .dynamicDNS
+  else if p == "allowany" then some .allowAny
+  else if p.startsWith "egress=" then
+    (match splitStr '|' (dec (p.drop 7).toString) with
+     | [h, pt] => some (.egressProxy (subsetKey "" h pt.toNat!))
+     | _ => none)
+  else none
+
+def policyTok : OutboundPolicy → String
+  | .allowAny => "allow"
+  | .registryOnly => "registry"
+  | .egressProxy _ => "egress"
+  | .dynamicDNS => "dynamic"
+
+/-- The Gateway resources that configure a router: those whose selector labels the router carries. -/
+def gwsFor (d : DState) (labels : List (String × String)) : List Gateway :=
+  d.gws.filter fun g =>
+    match d.gwSels.find? (fun e => e.1 == g.fullName) with
+    | some e => e.2.all (fun kv => labels.contains kv)
+    | none => true
 
 def stepD (d : DState) (toks : List String) : DState × String :=
   match toks with
@@ -256,8 +294,9 @@ def stepD (d : DState) (toks : List String) : DState × String :=
     let sv : Service := { host := dec h, ports := (decList ports).map String.toNat! }
     ({ d with ctx := { d.ctx with services := d.ctx.services ++ [sv] }, gsvcNs := d.gsvcNs ++ [(dec ns, sv)],
               gwBuilt := false }, "ok")
-  | ["gateway", name, ns, _sel] =>
-    ({ d with gws := d.gws ++ [{ name := dec name, ns := dec ns, servers := [] }], gwBuilt := false }, "ok")
+  | ["gateway", name, ns, sel] =>
+    ({ d with gws := d.gws ++ [{ name := dec name, ns := dec ns, servers := [] }],
+              gwSels := d.gwSels ++ [(dec ns ++ "/" ++ dec name, decPairs sel)], gwBuilt := false }, "ok")
   | ["server", port, proto, pname, hosts, tls, redirect] =>
     let https := proto == "HTTPS"
     let sv : GwServer := { port := port.toNat!, https := https, portName := dec pname, hosts := decList hosts,
@@ -265,87 +304,114 @@ def stepD (d : DState) (toks : List String) : DState × String :=
     match d.gws.reverse with
     | [] => (d, "ok")
     | g :: rest => ({ d with gws := ({ g with servers := g.servers ++ [sv] } :: rest).reverse, gwBuilt := false }, "ok")
-  | ["gvs", gws] =>
-    if d.vs.http.isEmpty || d.gvss.any (fun v => v.vs.name == d.vs.name) then (d, "ok")
-    else ({ d with gvss := d.gvss ++ [{ vs := d.vs, gateways := decList gws }], gwBuilt := false }, "ok")
+  | "gvs" :: gws :: rest =>
+    -- gvs <gateways> [<exportTo>]
+    if d.vs.http.isEmpty || d.gvss.any (fun v => v.vs.name == d.vs.name && v.vs.ns == d.vs.ns) then (d, "ok")
+    else
+      let ex := match rest with | e :: _ => decList e | _ => []
+      ({ d with gvss := d.gvss ++ [{ vs := d.vs, gateways := decList gws, exportTo := ex }], gwBuilt := false }, "ok")
   | ["grds", ns, labels, rn] =>
     let c2 : Ctx := { d.ctx with proxyNamespace := dec ns, proxyLabels := decPairs labels }
-    ({ d with ctx := c2, gwRoute := dec rn, gwBuilt := true }, showVHostTable true (gwVHosts c2 d.gws (gwViews d) (dec rn)))
+    ({ d with ctx := c2, gwRoute := dec rn, gwBuilt := true }, showVHostTable (!(gwServers (gwsFor d c2.proxyLabels) (dec rn)).isEmpty) (gwVHosts c2 (gwsFor d c2.proxyLabels) (gwViews d c2.proxyNamespace) (dec rn)))
   | "greq" :: f =>
     match decReq f with
     | none => (d, "bad-op")
     | some (req, re) =>
       if !d.gwBuilt then (d, "no-grds") else
       -- the model of buildGatewayHTTPRouteConfig under the Lean Envoy semantics, checked against the SPEC
-      let m := evalRouteConfig re true (gwVHosts d.ctx d.gws (gwViews d) d.gwRoute) req
-      let sp := gwSpec re d.ctx d.gws (gwViews d) d.gwRoute req
+      let m := evalRouteConfig re true (gwVHosts d.ctx (gwsFor d d.ctx.proxyLabels) (gwViews d d.ctx.proxyNamespace) d.gwRoute) req
+      let sp := gwSpec re d.ctx (gwsFor d d.ctx.proxyLabels) (gwViews d d.ctx.proxyNamespace) d.gwRoute req
       (d, showDecision m ++ (if sp == m then "" else " !spec:" ++ showDecision sp))
   | "msvc" :: h :: ns :: ports :: addr :: rest =>
-    let ps := (decList ports).map String.toNat!
-    let ext := match rest with | e :: _ => dec e | _ => ""
-    let als := match rest with | [_, a] => decList a | _ => []
-    ({ d with mesh := { d.mesh with svcs := d.mesh.svcs ++ [{ host := dec h, ns := dec ns, ports := ps, addr := dec addr, aliases := als }],
+    -- msvc <host> <ns> <ports, `t<port>` = a TCP port> <addr> [<ExternalName> [<aliases> [<cluster VIPs c=a+b;c2=a>]]]
+    let ptoks := decList ports
+    let num (t : String) : Nat := if t.startsWith "t" then (t.drop 1).toString.toNat! else t.toNat!
+    let ps := ptoks.map num
+    let tps := (ptoks.filter (·.startsWith "t")).map num
+    let ext0 := match rest with | e :: _ => dec e | _ => ""
+    let headless := ext0 == "headless"      -- the ExternalName slot carries the marker of a headless service
+    let ext := if headless then "" else ext0
+    let als := match rest with | _ :: a :: _ => decList a | _ => []
+    let vips : List (String × List String) := match rest with
+      | [_, _, v] => (splitStr ';' (dec v)).filterMap fun e =>
+          match splitStr '=' e with
+          | [cl, as] => some (cl, splitStr '+' as)
+          | _ => none
+      | _ => []
+    ({ d with mesh := { d.mesh with svcs := d.mesh.svcs ++ [{ host := dec h, ns := dec ns, ports := ps, tcpPorts := tps, addr := dec addr,
+                                                              aliases := als, alias := ext != "", headless := headless, clusterVIPs := vips }],
                                     built := false },
-              aliasHosts := if ext == "" then d.aliasHosts else d.aliasHosts ++ [lower (dec h)],
               -- the spec resolves destinations against the FULL registry
               ctx := { d.ctx with services := d.ctx.services ++ [{ host := dec h, ports := ps, externalName := ext }] } }, "ok")
   | "sidecar" :: ns :: hosts :: rest =>
-    -- sidecar <ns> <catch-all egress hosts> [<policy> [<port> <hosts of the port-specific listener>]]
+    -- sidecar <ns> <catch-all egress hosts> [<policy> [<port> <hosts of the port-specific listener> [<workloadSelector>]]]
     let decE (t : String) : List EgressHost := (decList t).map fun h =>
       match cutSlash h with
       | some p =>
         if p.1.startsWith "~" then { ns := (if p.1 == "~" then "*" else (p.1.drop 1).toString), host := p.2, excl := true }
         else { ns := p.1, host := p.2 }
       | none => { ns := "*", host := h }
-    let pol : OutboundPolicy := match rest with
-      | p :: _ => if p == "registry" then .registryOnly else if p.startsWith "egress=" then
-          (match splitChar '|' (dec (p.drop 7).toString).toList with
-           | [h, pt] => .egressProxy (subsetKey "" (String.ofList h) (String.ofList pt).toNat!)
-           | _ => .allowAny)
-        else .allowAny
-      | [] => .allowAny
+    let pol : Option OutboundPolicy := match rest with
+      | p :: _ => decPolicy p
+      | [] => none
     let pp : Nat × List EgressHost := match rest with
-      | [_, port, hs] => (port.toNat!, decE hs)
+      | _ :: port :: hs :: _ => (port.toNat!, decE hs)
       | _ => (0, [])
-    ({ d with mesh := { d.mesh with sidecarNs := dec ns, egress := decE hosts, egressPort := pp.1, egressPortHosts := pp.2, built := false },
-              policy := pol }, "ok")
-  | ["mvs"] =>
-    if d.vs.http.isEmpty || d.mesh.vss.any (fun v => v.name == d.vs.name) then (d, "ok")
-    else ({ d with mesh := { d.mesh with vss := d.mesh.vss ++ [resolveVS "cluster.local" d.vs], built := false } }, "ok")
-  | ["rds", ns, labels, port] =>
+    let sel : List (String × String) := match rest with
+      | [_, _, _, sl] => decPairs sl
+      | _ => []
+    ({ d with mesh := { d.mesh with sidecarNs := dec ns, egress := decE hosts, egressPort := pp.1, egressPortHosts := pp.2,
+                                    sidecarSelector := sel, sidecarPolicy := pol, built := false } }, "ok")
+  | ["meshpolicy", p] =>
+    ({ d with mesh := { d.mesh with meshPolicy := (decPolicy p).getD .allowAny, built := false } }, "ok")
+  | "mdr" :: _ => (d, "ok")    -- a DestinationRule object: no influence on where a request goes
+  | "mvs" :: rest =>
+    -- mvs [<exportTo> [<gateways>]]; VirtualServices are identified by name AND namespace
+    if d.vs.http.isEmpty || d.mesh.vss.any (fun v => v.name == d.vs.name && v.ns == d.vs.ns) then (d, "ok")
+    else
+      let ex := match rest with | e :: _ => decList e | _ => []
+      let gs := match rest with | [_, g] => decList g | _ => []
+      ({ d with mesh := { d.mesh with vss := d.mesh.vss ++ [resolveVS "cluster.local" d.vs],
+                                      vsx := d.mesh.vsx ++ [{ name := d.vs.name, ns := d.vs.ns, exportTo := ex, gateways := gs }],
+                                      built := false } }, "ok")
+  | "rds" :: ns :: labels :: port :: rest =>
+    let cl := match rest with | c :: _ => dec c | _ => ""
     let c2 : Ctx := { d.ctx with proxyNamespace := dec ns, proxyLabels := decPairs labels, gatewayNames := ["mesh"],
                                  listenPort := port.toNat! }
     let m2 : Mesh := { d.mesh with proxyDomain := dec ns ++ ".svc.cluster.local", built := true }
-    let sm := scopeMesh m2 c2.proxyNamespace c2.listenPort
+    let sm := proxyView m2 c2.proxyNamespace c2.proxyLabels c2.listenPort cl
     let cS : Ctx := { c2 with services := c2.services.filter (fun s => sm.svcs.any (fun x => x.host == s.host)) }
-    let pol := if m2.sidecarNs == c2.proxyNamespace then d.policy else .allowAny
-    let full := sidecarRDSFull cS sm pol d.aliasHosts
+    let full := sidecarRDSFull cS sm
     if d.stream == "certs-rds" then
       -- statistics only (not compared with the implementation): the hypotheses of sidecar_rds_correct on this build,
-      -- and - when they include certVSHosts - whether the theorem's model produces the same table as the full one
+      -- and - whenever they hold - whether the theorem's model produces the same table as the full one
       let cert := rdsCert cS sm && certVSHosts cS sm && certRegistry cS sm
       let same := showVHostTable true full == showVHostTable true (sidecarRDS cS sm)
-      ({ d with ctx := c2, mesh := m2 },
+      ({ d with ctx := c2, mesh := m2, cluster := cl },
         "cert=" ++ boolTok cert ++ " noDrop=" ++ boolTok (certNoDrop cS sm) ++ " vsHosts=" ++ boolTok (certVSHosts cS sm)
-          ++ " models=" ++ (if cert && pol == .allowAny && d.aliasHosts.isEmpty then boolTok same else "-"))
-    else ({ d with ctx := c2, mesh := m2 }, showVHostTable true full)
+          ++ " models=" ++ (if cert then boolTok same else "-")
+          ++ " port80=" ++ boolTok (c2.listenPort == 80) ++ " policy=" ++ policyTok sm.policy
+          ++ " sidecar=" ++ boolTok (sidecarApplies m2 c2.proxyNamespace c2.proxyLabels)
+          ++ " stray=" ++ toString (strayHosts cS sm).length)
+    else ({ d with ctx := c2, mesh := m2, cluster := cl }, showVHostTable true full)
   | "rreq" :: f =>
     match decReq f with
     | none => (d, "bad-op")
     | some (req, re) =>
       if !d.mesh.built then (d, "no-rds") else
-      let sm := scopeMesh d.mesh d.ctx.proxyNamespace d.ctx.listenPort   -- what the Sidecar resource (if any) lets this proxy see
+      -- what this proxy sees: exported / mesh-bound VirtualServices, Sidecar scope, its cluster's VIPs, its policy
+      let sm := proxyView d.mesh d.ctx.proxyNamespace d.ctx.proxyLabels d.ctx.listenPort d.cluster
       -- the route compiler only sees the egress listener's services: in scope (and, inside the model, on the port)
       let cS : Ctx := { d.ctx with services := d.ctx.services.filter (fun s => sm.svcs.any (fun x => x.host == s.host)) }
-      let pol := if d.mesh.sidecarNs == d.ctx.proxyNamespace then d.policy else .allowAny
-      if d.stream == "certs-rds" then (d, "side=" ++ boolTok (meshSide re cS sm req)) else
+      if d.stream == "certs-rds" then
+        (d, "side=" ++ boolTok (meshSide re cS sm req) ++ " why=" ++ meshWhy re d.ctx sm req) else
       -- the full model of the route configuration under the Lean Envoy semantics, checked against the SPEC
-      let mo := evalRouteConfig re true (sidecarRDSFull cS sm pol d.aliasHosts) req
+      let mo := evalRouteConfig re true (sidecarRDSFull cS sm) req
       -- F-C12-4 class: the spec read against that restricted registry explains the model's (= the code's) answer
       let cR : Ctx := { cS with services := restrictRegistry cS.listenPort cS.services }
-      let f4 := meshSpecF re cR sm pol d.aliasHosts req == some mo
+      let f4 := meshSpecF re cR sm req == some mo
       -- the SPEC is silent (`none`) for contested names
-      match meshSpecF re d.ctx sm pol d.aliasHosts req with
+      match meshSpecF re d.ctx sm req with
       | none => (d, showDecision mo)
       | some sp =>
         -- deviations of the known classes F-C12-4 / F-C12-6 are left to the oracle, which classifies them
